@@ -408,6 +408,14 @@ impl Property for RefProp {
                 }
             }
         }
+        // where the harness can compute the value itself, the twins agree with it too (a rewrite that
+        // changes both twins alike is invisible to the comparison of the twins)
+        if let Some(model) = case["model"].as_str()
+            && matches!(p_out, Outcome::Value(_))
+            && p_shown != model
+        {
+            return fail("C04:twin-vs-model", format!("literal: `{plain}`\n  gives {p_shown}\n  the documented meaning of the operators gives {model}"));
+        }
         // the twins agree on every execution of the parsed program, not only on the first (what the
         // folding pass builds ahead of time belongs to no particular execution)
         if matches!(p_out, Outcome::Value(_)) {
@@ -579,21 +587,6 @@ fn partial_constant_cases() -> Vec<Json> {
             }
         }
     }
-    // a comparison under `!`: negating a comparison is not the opposite comparison where NaN is involved
-    for op in ["<", "<=", ">", ">=", "==", "!="] {
-        for v in [f64::NAN, 1.0, -0.0, f64::INFINITY] {
-            for k in [1.0, 0.0, f64::NAN] {
-                push("float", &float_text(v), &[&float_text(k)], &format!("!({{x}} {op} {{0}})"), vec![]);
-                push("float", &float_text(v), &[&float_text(k)], &format!("!({{0}} {op} {{x}})"), vec![]);
-                push("float", &float_text(v), &[&float_text(k)], &format!("!({{x}} {op} {{x}}) == ({{0}} {op} {{x}})"), vec![]);
-            }
-        }
-        for v in [0i64, 1, -1, i64::MAX, i64::MIN] {
-            for k in [0i64, 1, i64::MIN] {
-                push("int", &int_text(v), &[&int_text(k)], &format!("!({{x}} {op} {{0}})"), vec![]);
-            }
-        }
-    }
     let fgroups: [&[&str]; 2] = [&["+", "-"], &["*", "/"]];
     let fsmall: [f64; 5] = [1.0, 0.1, -1e16, 1e308, -0.0];
     let fks: [f64; 7] = [1e16, -1e16, 0.1, 0.2, 0.3, 1e308, 3.0];
@@ -653,6 +646,58 @@ fn partial_constant_cases() -> Vec<Json> {
         push("[int]", v, &[a, b], "{x} + {0} + {1}", vec![]);
         push("[int]", v, &[a, b], "{0} + {x} + {1}", vec![]);
         push("[int]", v, &[a, b], "{0} + {1} + {x}", vec![]);
+    }
+    // a comparison under `!`: negating a comparison is not the opposite comparison where NaN is involved.
+    // Both twins keep x for run time, so a rewrite of the unfolded form changes them alike: these cases
+    // carry the value computed here (IEEE comparisons) as a model
+    fn cmp_f(op: &str, a: f64, b: f64) -> bool {
+        match op {
+            "<" => a < b,
+            "<=" => a <= b,
+            ">" => a > b,
+            ">=" => a >= b,
+            "==" => a == b,
+            _ => a != b,
+        }
+    }
+    fn cmp_i(op: &str, a: i64, b: i64) -> bool {
+        match op {
+            "<" => a < b,
+            "<=" => a <= b,
+            ">" => a > b,
+            ">=" => a >= b,
+            "==" => a == b,
+            _ => a != b,
+        }
+    }
+    let mut modelled = |ty: &str, v: &str, k: &str, template: &str, model: bool| {
+        for form in 0..2 {
+            let program = |how: u8| {
+                let (decls, shown) = match how {
+                    0 => (String::new(), k.to_string()),
+                    1 => (String::new(), format!("*(mut {ty} {k})")),
+                    _ => (format!("k0 := {k}; "), "k0".to_string()),
+                };
+                let t = template.replace("{0}", &shown).replace("{x}", "x");
+                if form == 0 { format!("{decls}x := *(mut {ty} {v}); {t}") } else { format!("{decls}f := (x: {ty}) -> any {{ return {t}; }}; f({v})") }
+            };
+            cases.push(json!({"plain": program(0), "hidden": program(1), "partly_hidden": program(2), "expected": "", "model": format!("value {model}"), "permitted": [], "labels": ["partial-constant catalogue", "comparison under ! with a model value"], "counters": {}, "literals": 1}));
+        }
+    };
+    for op in ["<", "<=", ">", ">=", "==", "!="] {
+        for v in [f64::NAN, 1.0, -0.0, f64::INFINITY, 0.5] {
+            for k in [1.0, 0.0, f64::NAN] {
+                modelled("float", &float_text(v), &float_text(k), &format!("!({{x}} {op} {{0}})"), !cmp_f(op, v, k));
+                modelled("float", &float_text(v), &float_text(k), &format!("!({{0}} {op} {{x}})"), !cmp_f(op, k, v));
+                modelled("float", &float_text(v), &float_text(k), &format!("!({{x}} {op} {{x}}) == ({{0}} {op} {{x}})"), (!cmp_f(op, v, v)) == cmp_f(op, k, v));
+                modelled("float", &float_text(v), &float_text(k), &format!("if !({{x}} {op} {{0}}) {{ 1 }} else {{ 0 }} == 1"), !cmp_f(op, v, k));
+            }
+        }
+        for v in [0i64, 1, -1, i64::MAX, i64::MIN] {
+            for k in [0i64, 1, i64::MIN] {
+                modelled("int", &int_text(v), &int_text(k), &format!("!({{x}} {op} {{0}})"), !cmp_i(op, v, k));
+            }
+        }
     }
     cases
 }
